@@ -56,26 +56,30 @@ var shapes = map[string]shape{
 	"cn.test.":    {kind: "cname", ttls: []uint32{30, 5}},
 	// Negative answers behind an alias: a short-lived CNAME in front of an
 	// SOA that would allow a longer life.
-	"cnnd.test.":     {kind: "cname-nodata", ttls: []uint32{5}, soaTTL: 300, soaMin: 60},
-	"cnnx.test.":     {kind: "cname-nx", ttls: []uint32{2}, soaTTL: 30, soaMin: 30},
-	"nd.test.":       {kind: "nodata", soaTTL: 300, soaMin: 10},
-	"ndlow.test.":    {kind: "nodata", soaTTL: 5, soaMin: 300, ad: true},
-	"nosoa.test.":    {kind: "nodata-nosoa"},
+	"cnnd.test.":  {kind: "cname-nodata", ttls: []uint32{5}, soaTTL: 300, soaMin: 60},
+	"cnnx.test.":  {kind: "cname-nx", ttls: []uint32{2}, soaTTL: 30, soaMin: 30},
+	"nd.test.":    {kind: "nodata", soaTTL: 300, soaMin: 10},
+	"ndlow.test.": {kind: "nodata", soaTTL: 5, soaMin: 300, ad: true},
+	"nosoa.test.": {kind: "nodata-nosoa"},
 	// Incomplete answers: a referral (name servers in the authority section,
 	// no SOA) and an alias chain that stops short, likewise without SOA.
 	"refer.test.":   {kind: "referral", ttls: []uint32{300}},
 	"cnshort.test.": {kind: "cname-nosoa", ttls: []uint32{300}},
-	"nx.test.":       {kind: "nx", soaTTL: 30, soaMin: 30},
-	"sf.test.":       {kind: "servfail", soaTTL: 300, soaMin: 300},
-	"sfbare.test.":   {kind: "servfail"},
-	"rf.test.":       {kind: "refused", soaTTL: 300, soaMin: 300},
-	"tc.test.":       {kind: "tc", ttls: []uint32{300}},
-	"z.test.":        {kind: "ok", ttls: []uint32{0}},
-	"e5.test.":       {kind: "ok", ttls: []uint32{5}, ecs: true},
-	"e300.test.":     {kind: "ok", ttls: []uint32{300}, ecs: true, ad: true},
-	"e300n.test.":    {kind: "ok", ttls: []uint32{300}, ecs: true, longScope: true},
-	"enx.test.":      {kind: "nx", soaTTL: 30, soaMin: 30, ecs: true},
-	"other300.test.": {kind: "ok", ttls: []uint32{300}},
+	"nx.test.":      {kind: "nx", soaTTL: 30, soaMin: 30},
+	"sf.test.":      {kind: "servfail", soaTTL: 300, soaMin: 300},
+	"sfbare.test.":  {kind: "servfail"},
+	"rf.test.":      {kind: "refused", soaTTL: 300, soaMin: 300},
+	"tc.test.":      {kind: "tc", ttls: []uint32{300}},
+	"z.test.":       {kind: "ok", ttls: []uint32{0}},
+	"e5.test.":      {kind: "ok", ttls: []uint32{5}, ecs: true},
+	"e300.test.":    {kind: "ok", ttls: []uint32{300}, ecs: true, ad: true},
+	"e300n.test.":   {kind: "ok", ttls: []uint32{300}, ecs: true, longScope: true},
+	// A name under one of the domains the resolver knows to answer alike for
+	// every subnet whatever they claim ("126.net."); the name itself is not on
+	// that list, and its answers do depend on the subnet.
+	"cdn.geo.126.net.": {kind: "ok", ttls: []uint32{300}, ecs: true},
+	"enx.test.":        {kind: "nx", soaTTL: 30, soaMin: 30, ecs: true},
+	"other300.test.":   {kind: "ok", ttls: []uint32{300}},
 	// An answer with records in every section, each with a TTL of its own
 	// (name server in the authority section, its address as glue).
 	"glue.test.": {kind: "glue", ttls: []uint32{30}},
